@@ -197,7 +197,7 @@ def main(argv=None):
     ap.add_argument("--tier", default=os.environ.get("VERIF_TIER", "quick"))
     ap.add_argument("--replay")
     ap.add_argument("--only", help="comma-separated obligation names")
-    ap.add_argument("--jobs", type=int, default=int(os.environ.get("VERIF_JOBS", "16")))
+    ap.add_argument("--jobs", type=int, default=int(os.environ.get("VERIF_JOBS", "8")))
     ap.add_argument("--no-evidence", action="store_true")
     ap.add_argument("--list", action="store_true")
     args = ap.parse_args(argv)
